@@ -203,6 +203,32 @@ class ReusedVerifiers:
 REUSED = ReusedVerifiers()
 
 
+def late_registration(run, t, checkset, fresh, case):
+    """One verifier object that has ALREADY verified a schema when the plug-in registers its checks on it (a long-lived
+    manager asked for another generator): checks registered late are registered checks, the verdict is the fresh one."""
+    from fcp.verifier import make_general_verifier
+
+    try:
+        v = make_general_verifier()
+        v.verify(build({"structs": [{"name": "Warm", "fields": [{"name": "x", "id": 0, "type": ("u", 8)}]}], "enums": [],
+                        "impls": [{"name": "Warm", "protocol": "default", "type": "Warm", "fields": {}, "signals": []}], "services": [], "devices": []}))
+        if checkset == "dbc":
+            import fcp_dbc
+
+            fcp_dbc.Generator().register_checks(v)
+        else:
+            import fcp_can_c
+
+            fcp_can_c.Generator().register_checks(v)
+        r = v.verify(build(t))
+        got = r.is_ok() if type(r).__name__ in ("Ok", "Err") else None
+    except Exception as e:
+        got = "raised %s" % type(e).__name__
+    run.count("late_registration_verdicts")
+    if got != fresh:
+        run.violation("a verifier that verified a schema BEFORE the %s checks were registered on it says %s, a fresh one %s" % (checkset, got, "Ok" if fresh else "Err"), case)
+
+
 def edited_in_place(run, r, t, checkset):
     """One long-lived tree object: verified (and looked up by name) once, then edited in place WITHOUT changing the
     number of its declarations - a struct renamed, a field widened, the struct list replaced by an equal-length
@@ -321,6 +347,8 @@ def judge(run, t, checkset, origin, nperm=0, rng=None, sample=False):
     run.count("expected_ok" if want else "expected_err")
     if origin.startswith(("random", "plugin")):
         REUSED.verdict(run, t, checkset, got, case)
+    if origin.startswith("plugin") and checkset in ("dbc", "can_c"):
+        late_registration(run, t, checkset, got, case)
     size = sum(len(v) for v in t.values() if isinstance(v, list))
     run.case(sig="%s|%s|%s|%s|n%d" % (origin.split("/")[0], checkset, "ok" if want else "err", ",".join(rules), min(size, 12)))
     if sample and len(run.samples) < 4:
@@ -545,6 +573,9 @@ def plugin_trees(r):
         b = a + 1 if a == 0 else a - 1
     out.append((T([can("Pa", "Pa", a), can("Pb", "Pb", b)]), "can-distinct-ids"))
     out.append((T([can("Pa", "Pa", a), can("Pb", "Pb", a)]), "can-same-id-same-bus"))
+    # (name, protocol) pairs that differ although their spellings joined by '_' (or by nothing) coincide
+    out.append((T([can("fd_Pa", "Pa", a, proto="can"), can("Pa", "Pa", b, proto="can_fd")]), "bindings-whose-joined-spellings-coincide"))
+    out.append((T([can("b_c", "Pa", a, proto="a"), can("c", "Pb", b, proto="a_b"), can("bc", "Pb", b, proto="a"), can("c", "Pa", b, proto="ab")]), "bindings-whose-joined-spellings-coincide"))
     # identifiers that agree in their low 11 / 29 bits (or differ only in the 'extended frame' flag bit 31) are
     # different identifiers
     far = a + r.choice([1 << 11, 1 << 29, 1 << 31, 0x20000000, 0x80000000, 1 << 32])
@@ -688,7 +719,7 @@ def run(run):
 
 
 def conclude(run):
-    run.require("aliased_node_trees", "edited_in_place_verdicts", "reused_verifier_verdicts", "verify_calls", "verdicts_agree", "expected_ok", "expected_err", "permutations_agree", "dispatch_probes")
+    run.require("aliased_node_trees", "late_registration_verdicts", "edited_in_place_verdicts", "reused_verifier_verdicts", "verify_calls", "verdicts_agree", "expected_ok", "expected_err", "permutations_agree", "dispatch_probes")
     for rule in RULES:
         if run.counters.get("injected/" + rule, 0) == 0:
             run.inconclusive_because("rule '%s' was never injected" % rule)
